@@ -6,6 +6,7 @@ G3 computed signatures are aligned with the files of the same side and use the r
 G4 writer: header from col_ids; rows zip_strict(row_ids, dmat); each value format(d, fmt) with fmt default '0.4f'; csv.writer
 """
 import ast
+import copy
 
 from .. import align
 from ..astutil import (u, atoms, guard_map, path_atoms, stmts_in, calls_in, callee, callee_attr, reaching_def, def_value,
@@ -69,14 +70,99 @@ def comes_after(fn, s, x):
 
 
 def none_guarded_rebinding(fn, s, x, name):
-    """x rebinds `name` inside an `if name is None:` arm whose test is evaluated after s (infeasible once `name.attr` was read at s)."""
+    """x lies inside an `if name is None:` arm (or the else arm of `if name is not None:`, elif chains included) whose test is evaluated after s
+    (any position when s is None) and `name` is not rebound between the test and x: at x, `name` is None."""
     path = block_path(fn, x)
     for (block, idx, owner) in path:
-        if isinstance(owner, ast.If) and comes_after(fn, s, owner):
+        if isinstance(owner, ast.If) and (s is None or comes_after(fn, s, owner)):
             at = atoms(owner.test, block is owner.body)
             if at and ('is', 'None', name) in at and not any(binds(y, name) or binds_deep(y, name) for y in block[:idx]):
                 return True
     return False
+
+
+
+def emissions(m, fw):
+    """([emission], [reason the extraction is incomplete]).  An emission = dict(row=<expression, locals replaced by their definitions>,
+    loops=[(target, iterable)] around it (for statements and comprehension clauses alike), stmt, csv=<written through a csv.writer>,
+    writer=<text of the writer construction>).  Order = order of writing."""
+    notes = []
+
+    def resolve(e, scope, at, depth=0):
+        class R(ast.NodeTransformer):
+            def visit_Name(self, n):
+                if isinstance(n.ctx, ast.Load) and depth < 6:
+                    d = reaching_def(scope, n.id, at)
+                    v = def_value(d) if d not in (None, PARAM, AMBIGUOUS) else None
+                    if v is not None:
+                        return resolve(v, scope, d, depth + 1)
+                return n
+        return R().visit(copy.deepcopy(e))
+
+    def writer_of(e, scope, at):
+        """text of the csv.writer(...) construction a writer expression denotes, else None"""
+        w = resolve(e, scope, at)
+        return u(w) if isinstance(w, ast.Call) and m.resolve(fw.module, w.func) in ('csv.writer',) or isinstance(w, ast.Call) and u(w.func) == 'csv.writer' else None
+
+    def generator_def(name, scope):
+        for n in ast.walk(scope):
+            if isinstance(n, ast.FunctionDef) and n is not scope and n.name == name:
+                return n
+        return None
+
+    def rows_of(g, scope, at, loops, wtext, out, depth=0):
+        """the rows an iterable handed to writerows produces"""
+        if depth > 4:
+            notes.append(f'rows handed to writerows are nested too deeply: {u(g)[:50]}')
+        elif isinstance(g, (ast.List, ast.Tuple)) and not any(isinstance(x, ast.Starred) for x in g.elts):
+            for x in g.elts:
+                out.append(dict(row=resolve(x, scope, at), loops=list(loops), stmt=at, csv=wtext is not None, writer=wtext))
+        elif isinstance(g, (ast.GeneratorExp, ast.ListComp)) and not any(c.ifs for c in g.generators):
+            out.append(dict(row=resolve(g.elt, scope, at), loops=list(loops) + [(c.target, resolve(c.iter, scope, at)) for c in g.generators], stmt=at, csv=wtext is not None, writer=wtext))
+        elif isinstance(g, ast.Call) and isinstance(g.func, ast.Name) and not g.args and not g.keywords and generator_def(g.func.id, scope) is not None:
+            gd = generator_def(g.func.id, scope)
+            rebound = {a.arg for a in gd.args.args} | {n.id for n in ast.walk(gd) if isinstance(n, ast.Name) and isinstance(n.ctx, ast.Store)}
+            if rebound & set(fw.params()):
+                notes.append(f'generator {gd.name} rebinds a parameter of the writer')
+            walk(gd.body, gd, loops, out, yields=wtext)
+        elif isinstance(g, ast.Name):
+            d = reaching_def(scope, g.id, at)
+            v = def_value(d) if d not in (None, PARAM, AMBIGUOUS) else None
+            if v is None:
+                notes.append(f'rows handed to writerows come from {g.id}, which has no single definition')
+            else:
+                rows_of(v, scope, d, loops, wtext, out, depth + 1)
+        else:
+            notes.append(f'rows handed to writerows are outside the vocabulary: {u(g)[:60]}')
+
+    def walk(stmts, scope, loops, out, yields=None):
+        for s in stmts:
+            if isinstance(s, ast.Expr) and isinstance(s.value, ast.Call) and isinstance(s.value.func, ast.Attribute) and s.value.func.attr in ('writerow', 'writerows') and len(s.value.args) == 1:
+                wtext = writer_of(s.value.func.value, scope, s)
+                if s.value.func.attr == 'writerow':
+                    out.append(dict(row=resolve(s.value.args[0], scope, s), loops=list(loops), stmt=s, csv=wtext is not None, writer=wtext))
+                else:
+                    rows_of(s.value.args[0], scope, s, loops, wtext, out)
+            elif isinstance(s, ast.Expr) and isinstance(s.value, ast.Yield) and yields is not False and scope is not fw.node:
+                if s.value.value is None:
+                    notes.append('bare yield in the row generator')
+                else:
+                    out.append(dict(row=resolve(s.value.value, scope, s), loops=list(loops), stmt=s, csv=yields is not None, writer=yields))
+            elif isinstance(s, ast.For) and not s.orelse:
+                walk(s.body, scope, loops + [(s.target, resolve(s.iter, scope, s))], out, yields)
+            elif isinstance(s, ast.With):
+                walk(s.body, scope, loops, out, yields)
+            elif isinstance(s, (ast.If, ast.While, ast.Try, ast.For)):
+                inner = []
+                for b in [getattr(s, f, []) for f in ('body', 'orelse', 'finalbody')] + [h.body for h in getattr(s, 'handlers', [])]:
+                    walk(b, scope, loops, inner, yields)
+                if inner or any(isinstance(n, (ast.Yield, ast.YieldFrom)) for n in ast.walk(s)):
+                    notes.append(f'rows are written under a {type(s).__name__.lower()} statement: {u(s).splitlines()[0][:60]}')
+            elif any(isinstance(n, (ast.Yield, ast.YieldFrom)) for n in ast.walk(s)) and not isinstance(s, ast.FunctionDef):
+                notes.append(f'yield outside the vocabulary: {u(s)[:60]}')
+    out = []
+    walk(fw.node.body, fw.node, [], out)
+    return out, notes
 
 
 def check(ctx):
@@ -108,28 +194,35 @@ def check(ctx):
     rep.require(len(mats) == 1 and len(pairs) == 1, 'dist_cmd: expected one matrix and one pairwise call')
     mc, pc = mats[0], pairs[0]
 
-    def holder(call, what):
-        """(assignment holding the call's result, conditions inside that statement): the value of the assignment is the call itself or
-        a conditional expression with the call as one arm (the arm's test then belongs to the path condition)."""
-        st = next((s_ for s_ in stmts_in(fn.body) if isinstance(s_, ast.Assign) and any(x is call for x in ast.walk(s_.value))), None)
-        rep.require(st is not None and len(st.targets) == 1 and isinstance(st.targets[0], ast.Name), f'dist_cmd: the result of {what} is not assigned to a variable')
-        inner, e = [], st.value
-        while isinstance(e, ast.IfExp):
-            if any(x is call for x in ast.walk(e.body)):
-                inner.append((e.test, True))
-                e = e.body
-            elif any(x is call for x in ast.walk(e.orelse)):
-                inner.append((e.test, False))
-                e = e.orelse
-            else:
-                break
-        rep.require(e is call, f'dist_cmd: the result of {what} is transformed before it is assigned ({u(st)[:80]})')
-        return st, tuple(inner)
-    (mst, m_in), (pst, p_in) = holder(mc, 'jaccarddist_matrix'), holder(pc, 'jaccarddist_pairwise')
+    def origins(e, at, guards, depth=0):
+        """[(expression, statement, guards)]: every value that can reach `e` evaluated at statement `at`, through plain copies (all definitions
+        when there are several, each under its own path condition) and through the arms of conditional expressions (each under its test)."""
+        if isinstance(e, ast.IfExp):
+            return origins(e.body, at, guards + ((e.test, True),), depth) + origins(e.orelse, at, guards + ((e.test, False),), depth)
+        if isinstance(e, ast.Name) and depth < 6:
+            d_ = reaching_def(fn, e.id, at)
+            if d_ is AMBIGUOUS:
+                out = []
+                for x in assigns_to(fn, e.id):
+                    v_ = def_value(x)
+                    out += origins(v_, x, tuple(gm[x]), depth + 1) if v_ is not None else [(e, x, tuple(gm[x]))]
+                return out
+            v_ = def_value(d_) if d_ not in (None, PARAM) else None
+            if v_ is not None:
+                return origins(v_, d_, tuple(gm[d_]), depth + 1)
+        return [(e, at, guards)]
+    dst = next((s_ for s_ in stmts_in(fn.body) if any(x is dc for x in ast.walk(s_)) and not isinstance(s_, (ast.If, ast.For, ast.While, ast.With, ast.Try))), None)
+    rep.require(dst is not None, 'dist_cmd: cannot locate the statement of the dump_dmat_csv call')
+    written = origins(dmat_a, dst, tuple(gm[dst]))
     rep.require(len(mc.args) >= 2 and len(pc.args) >= 1, 'dist_cmd: matrix / pairwise operands are not positional')
     q_sigs, r_sigs = u(mc.args[0]), u(mc.args[1])
-    rep.add('G2', fi.site(dc), 'the written matrix is the one just computed (either mode)', u(mst.targets[0]) == u(pst.targets[0]) == u(dmat_a), expected=f'{u(dmat_a)} from both branches', found=(u(mst.targets[0]), u(pst.targets[0])), stmt='matrix variable')
-    atm, atp = path_atoms(gm[mst] + m_in), path_atoms(gm[pst] + p_in)
+    rep.add('G2', fi.site(dc), 'the written matrix is the one just computed (either mode)', len(written) == 2 and {id(w[0]) for w in written} == {id(mc), id(pc)}, expected='the result of jaccarddist_matrix / jaccarddist_pairwise, unchanged',
+            found=[u(w[0])[:60] for w in written], stmt='matrix variable')
+    mw = next((w for w in written if w[0] is mc), None)
+    pw_ = next((w for w in written if w[0] is pc), None)
+    rep.require(mw is not None and pw_ is not None, f'dist_cmd: the matrix written is not the plain result of the matrix / pairwise call ({[u(w[0])[:50] for w in written]})')
+    mst, pst = mw[1], pw_[1]
+    atm, atp = path_atoms(mw[2]), path_atoms(pw_[2])
     rep.add('G2', fi.site(pst), 'square mode computes all pairs of the queries, as a full (non-flat) matrix', ('true', 'square') in atp and u(pc.args[0]) == q_sigs and get_kw(pc, 'flat') is None and len(pc.args) == 1,
             expected=f'jaccarddist_pairwise({q_sigs}) under square', found=(u(pc)[:60], sorted(atp)), stmt='square mode')
     # which signature-file option each matrix operand is loaded from (directly, through a copy, or through a loading helper whose
@@ -204,7 +297,7 @@ def check(ctx):
                 okc = isinstance(s.value, ast.Call) and m.resolve_call(fi, s.value) == 'gambit.cli.common.get_sequence_files' and [u(e) for e in tgt.elts] == [ids, files]
                 args = [u(a) for a in s.value.args] if isinstance(s.value, ast.Call) else []
                 want = ['q', 'ql', 'qdir'] if side == 'query' else ['r', 'rl', 'rdir']
-                sig_none = any(isinstance(x, ast.Assign) and any(u(t) == sigs for t in x.targets) and is_none(x.value) for x in blk)
+                sig_none = any(isinstance(x, ast.Assign) and any(u(t) == sigs for t in x.targets) and is_none(x.value) for x in blk) or none_guarded_rebinding(fn, None, s, sigs)
                 rep.add('G1', fi.site(s), f'{side} side from files: ids and files are the aligned pair of one get_sequence_files call on this side\'s options; no pre-computed signatures', okc and args == want and sig_none,
                         expected=f'{ids}, {files} = get_sequence_files({", ".join(want)}); {sigs} = None', found=(u(s), sig_none), stmt=f'{side} files branch')
             elif u(s.value) == f'{sigs}.ids':
@@ -224,21 +317,74 @@ def check(ctx):
     rep.floor('G1', 'id-assignment branches', nbranches, 5)
     rep.add('G1', fi.site(), 'each side loads its own signature file option', loads.get(q_sigs) == ['qs'] and loads.get(r_sigs) == ['rs'], expected={q_sigs: ['qs'], r_sigs: ['rs']}, found=loads, stmt='signature file options')
     ctx_aliases = {'ctx.obj'} | {u(x.targets[0]) for x in stmts_in(fn.body) if isinstance(x, ast.Assign) and u(x.value) == 'ctx.obj'}
-    dbs = [s for s in stmts_in(fn.body) if isinstance(s, ast.Assign) and u(s.targets[0]) == r_sigs and u(s.value) in {f'{a}.signatures' for a in ctx_aliases}]
+
+    def is_db_signatures(v_):
+        """<ctx.obj or an alias>.signatures, or a method of the CLI context object every return of which is `self.signatures`."""
+        if u(v_) in {f'{a}.signatures' for a in ctx_aliases}:
+            return True
+        if isinstance(v_, ast.Call) and isinstance(v_.func, ast.Attribute) and u(v_.func.value) in ctx_aliases and not v_.args and not v_.keywords:
+            mi = m.find_method('gambit.cli.common.CLIContext', v_.func.attr)
+            if mi is not None and not any(isinstance(d_, ast.Name) and d_.id == 'property' for d_ in mi.decorators) and mi.params():
+                rets = [x for x in stmts_in(mi.node.body) if isinstance(x, ast.Return)]
+                return bool(rets) and all(u(x.value) == f'{mi.params()[0]}.signatures' for x in rets)
+        return False
+    dbs = [s for s in stmts_in(fn.body) if isinstance(s, ast.Assign) and u(s.targets[0]) == r_sigs and is_db_signatures(s.value)]
     # the guard may be reached by elimination (`if rs is not None or use_db:` ... `if rs is None:`); the tested options are never rebound
     db_at = implied_atoms(gm[dbs[0]]) if len(dbs) == 1 else set()
     stale = [n for t, _ in (gm[dbs[0]] if len(dbs) == 1 else ()) for n in sorted({x.id for x in ast.walk(t) if isinstance(x, ast.Name)}) if n != r_sigs and assigns_to(fn, n)]
     rep.add('G1', fi.site(dbs[0] if dbs else None), "--use-db takes the database's signatures as references", len(dbs) == 1 and ('true', 'use_db') in db_at and not stale, expected='ref_sigs = ctx.obj.signatures under use_db',
             found=([u(x) for x in dbs], sorted(db_at), stale), stmt='use_db source')
     # ---- G3: computed signatures
-    calcs = [s for s in stmts_in(fn.body) if isinstance(s, ast.Assign) and isinstance(s.value, ast.Call) and (m.resolve_call(fi, s.value) or '').endswith('calc_file_signatures')]
+    def helper_summary(hq):
+        """(kspec parameter, files parameter) of a package helper that returns calc_file_signatures(<its kspec parameter>, <files aligned
+        with its files parameter>) on every path - a "calculate signatures from files" stanza moved into a function; else None."""
+        hf = m.functions.get(hq)
+        if hf is None or hf.cls is not None or not hq.startswith('gambit.cli.'):
+            return None
+        cc = [c for c in calls_in(hf.node) if (m.resolve_call(hf, c) or '').endswith('calc_file_signatures')]
+        rets = [x for x in stmts_in(hf.node.body) if isinstance(x, ast.Return)]
+        if len(cc) != 1 or not rets or len(cc[0].args) < 2 or any(isinstance(a, ast.Starred) for a in cc[0].args[:2]):
+            return None
+        for r_ in rets:
+            v_ = r_.value
+            if isinstance(v_, ast.Name):
+                d_ = reaching_def(hf.node, v_.id, r_)
+                v_ = def_value(d_) if d_ not in (None, PARAM, AMBIGUOUS) else None
+            if v_ is not cc[0]:
+                return None
+        cst = next(x for x in stmts_in(hf.node.body) if any(y is cc[0] for y in ast.walk(x)) and not isinstance(x, (ast.If, ast.For, ast.While, ast.With, ast.Try)))
+        ka = cc[0].args[0]
+        if not (isinstance(ka, ast.Name) and reaching_def(hf.node, ka.id, cst) is PARAM and not assigns_to(hf.node, ka.id)):
+            return None
+        froot = align.source(m, hf, cc[0].args[1], cst)[0]
+        if froot not in hf.params() or assigns_to(hf.node, froot):
+            return None
+        return ka.id, froot
+
+    def calc_site(s_):
+        """(parameter expression, files expression) when this assignment computes signatures from files: a calc_file_signatures call, or a
+        call of a helper summarised as one."""
+        if not (isinstance(s_, ast.Assign) and isinstance(s_.value, ast.Call)):
+            return None
+        c_ = s_.value
+        q_ = m.resolve_call(fi, c_) or ''
+        if q_.endswith('calc_file_signatures'):
+            return get_arg(c_, 0, 'kmerspec'), get_arg(c_, 1, 'files')
+        hs = helper_summary(q_)
+        if hs is None or any(isinstance(a, ast.Starred) for a in c_.args) or any(k.arg is None for k in c_.keywords):
+            return None
+        names = m.functions[q_].params()
+        return tuple(get_arg(c_, names.index(n_), n_) for n_ in hs)
+    calcs = [s for s in stmts_in(fn.body) if calc_site(s) is not None]
     rep.floor('G3', 'calc_file_signatures sites in dist_cmd', len(calcs), 2)
     kargs = set()
     for s in calcs:
+        karg, farg = calc_site(s)
+        rep.require(isinstance(karg, ast.AST) and isinstance(farg, ast.AST), f'dist_cmd: cannot tell the parameter / files arguments of {u(s.value)[:60]}')
         side = 'query' if u(s.targets[0]) == q_sigs else 'ref' if u(s.targets[0]) == r_sigs else None
         rep.require(side is not None, f'dist_cmd: computed signatures assigned to {u(s.targets[0])}')
         ids, sigs, files = sides[side]
-        root = align.source(m, fi, s.value.args[1], s)[0]
+        root = align.source(m, fi, farg, s)[0]
         if root.startswith('?'):
             # the files variable is None in the pre-computed branches (G1) and bound by get_sequence_files in the files
             # branch; under `<sigs> is None` only that definition is live: use the unique non-None definition
@@ -250,8 +396,7 @@ def check(ctx):
         at = path_atoms(gm[s])
         # "the reconciled parameters": one variable for both sides, every definition of which is the explicit options, the parameters of a
         # pre-computed source or the default (that the choice among them is the right one on every option path is P1/P2 below)
-        karg = get_arg(s.value, 0, 'kmerspec')
-        kinds = kspec_kinds(karg) if isinstance(karg, ast.AST) else {'other: no parameter argument'}
+        kinds = kspec_kinds(karg)
         unknown = sorted(k_ for k_ in kinds if k_.startswith('other'))
         rep.require(not unknown or 'options' not in kinds, f'dist_cmd: k-mer parameters of the computed {side} signatures have a definition outside the vocabulary ({unknown[0] if unknown else ""})')
         kargs.add(u(karg))
@@ -273,30 +418,38 @@ def check(ctx):
     rep.add('G4', fw.site(), 'values are written with a fixed four-decimal format by default', d is not None and is_const(d, '0.4f'), expected="'0.4f'", found=u(d), stmt='default format')
     rep.add('G4', fi.site(dc), 'the command uses that default format', get_kw(dc, 'fmt') is None and len(dc.args) <= 5, expected='fmt not overridden', found=u(dc), stmt='format not overridden')
     rep.account_returns('G4', fw, [], 'row (the writer must not leave before every row is written)')
-    wr = [s for s in stmts_in(fw.node.body) if isinstance(s, ast.Assign) and isinstance(s.value, ast.Call) and u(s.value.func) == 'csv.writer']
-    rows = [c for c in calls_in(fw.node) if callee_attr(c) == 'writerow']
-    rep.add('G4', fw.site(wr[0] if wr else None), 'cells go through csv.writer (labels with commas/quotes stay parseable)', len(wr) == 1 and all(u(c.func.value) == u(wr[0].targets[0]) for c in rows) and len(rows) == 2, expected='csv.writer(...).writerow x2',
-            found=[u(c)[:50] for c in rows], stmt='csv writer')
-    def in_loop(c):
-        st_ = next((s for s in stmts_in(fw.node.body) if any(x is c for x in ast.walk(s)) and not isinstance(s, (ast.For, ast.While, ast.If, ast.With, ast.Try))), None)
-        rep.require(st_ is not None, f'dump_dmat_csv: cannot locate the statement of {u(c)[:50]}')
-        return any(isinstance(o, ast.For) for (_, _, o) in block_path(fw.node, st_))
-    hdr = next((c for c in rows if not in_loop(c)), None)
-    okh = hdr is not None and isinstance(hdr.args[0], ast.List) and len(hdr.args[0].elts) == 2 and isinstance(hdr.args[0].elts[1], ast.Starred) and u(hdr.args[0].elts[1].value) == f'map(str, {p[3]})'
-    rep.add('G4', fw.site(hdr), 'header = corner cell followed by the column ids in order', okh, expected=f"[corner or '', *map(str, {p[3]})]", found=u(hdr.args[0]) if hdr is not None else None, stmt='header')
-    loops = [s for s in stmts_in(fw.node.body) if isinstance(s, ast.For)]
-    okl = len(loops) == 1 and isinstance(loops[0].iter, ast.Call) and u(loops[0].iter.func) == 'zip_strict' and [u(a) for a in loops[0].iter.args] == [p[2], p[1]]
-    rep.add('G4', fw.site(loops[0] if loops else None), 'row ids are STRICTLY zipped with the matrix rows (count mismatch is an error)', okl, expected=f'for row_id, values in zip_strict({p[2]}, {p[1]})', found=[u(l.iter) for l in loops], stmt='row zip')
+    # the rows the function emits, in emission order, however they reach the csv writer: writerow(X) statements, writerows(<generator function
+    # yielding X / comprehension / list literal / list filled by append>); each with the loops around it and its locals replaced by their definitions
+    ems, notes = emissions(m, fw)
+    rep.require(not notes, f'dump_dmat_csv: {notes[0] if notes else ""}')
+    via_csv = [e for e in ems if e['csv']]
+    rep.add('G4', fw.site(ems[0]['stmt'] if ems else None), 'cells go through csv.writer (labels with commas/quotes stay parseable)', len(ems) == 2 and len(via_csv) == 2 and len({e['writer'] for e in ems}) == 1,
+            expected='header and rows, both written by one csv.writer', found=[(u(e['row'])[:50], 'csv' if e['csv'] else 'not csv') for e in ems], stmt='csv writer')
+    hdr = next((e for e in ems if not e['loops']), None)
+
+    def strs_of(e_, seq):
+        """e_ is str() of every element of seq, in order: map(str, seq) or a comprehension str(t) for t in seq."""
+        if isinstance(e_, ast.Call) and u(e_.func) == 'map' and [u(a) for a in e_.args] == ['str', seq]:
+            return True
+        return isinstance(e_, (ast.GeneratorExp, ast.ListComp)) and len(e_.generators) == 1 and not e_.generators[0].ifs and u(e_.generators[0].iter) == seq \
+            and u(e_.elt) == f'str({u(e_.generators[0].target)})'
+    hrow = hdr['row'] if hdr is not None else None
+    okh = isinstance(hrow, ast.List) and len(hrow.elts) == 2 and isinstance(hrow.elts[1], ast.Starred) and strs_of(hrow.elts[1].value, p[3]) and ems.index(hdr) == 0
+    rep.add('G4', fw.site(hdr['stmt'] if hdr else None), 'header = corner cell followed by the column ids in order', okh, expected=f"[corner or '', *map(str, {p[3]})]", found=u(hrow), stmt='header')
+    body = [e for e in ems if e['loops']]
+    loops = [l for e in body for l in e['loops']]
+    okl = len(body) == 1 and len(loops) == 1 and isinstance(loops[0][1], ast.Call) and u(loops[0][1].func) == 'zip_strict' and [u(a) for a in loops[0][1].args] == [p[2], p[1]] and not loops[0][1].keywords \
+        and isinstance(loops[0][0], ast.Tuple) and len(loops[0][0].elts) == 2
+    rep.add('G4', fw.site(body[0]['stmt'] if body else None), 'row ids are STRICTLY zipped with the matrix rows (count mismatch is an error)', okl, expected=f'for row_id, values in zip_strict({p[2]}, {p[1]})', found=[u(l[1]) for l in loops], stmt='row zip')
     if okl:
-        rid, vals = (u(e) for e in loops[0].target.elts)
-        body_row = next((c for c in rows if c is not hdr), None)
-        vs = next((s for s in loops[0].body if isinstance(s, ast.Assign)), None)
-        okv = vs is not None and isinstance(vs.value, (ast.GeneratorExp, ast.ListComp)) and u(vs.value.generators[0].iter) == vals and not vs.value.generators[0].ifs \
-            and u(vs.value.elt) == f'format({u(vs.value.generators[0].target)}, {p[5]})'
-        okr = body_row is not None and isinstance(body_row.args[0], ast.List) and u(body_row.args[0].elts[0]) == f'str({rid})' and isinstance(body_row.args[0].elts[1], ast.Starred) \
-            and vs is not None and u(body_row.args[0].elts[1].value) == u(vs.targets[0])
-        rep.add('G4', fw.site(loops[0]), 'each row = its id followed by every value of its matrix row formatted with fmt, in column order', okv and okr, expected=f'[str({rid}), *(format(d, {p[5]}) for d in {vals})]',
-                found=(u(vs.value) if vs is not None else None, u(body_row.args[0]) if body_row is not None else None), stmt='row cells')
+        rid, vals = (u(e) for e in loops[0][0].elts)
+        brow = body[0]['row']
+        cells = brow.elts[1].value if isinstance(brow, ast.List) and len(brow.elts) == 2 and isinstance(brow.elts[1], ast.Starred) else None
+        okv = isinstance(cells, (ast.GeneratorExp, ast.ListComp)) and len(cells.generators) == 1 and u(cells.generators[0].iter) == vals and not cells.generators[0].ifs \
+            and u(cells.elt) == f'format({u(cells.generators[0].target)}, {p[5]})'
+        okr = cells is not None and u(brow.elts[0]) == f'str({rid})'
+        rep.add('G4', fw.site(body[0]['stmt']), 'each row = its id followed by every value of its matrix row formatted with fmt, in column order', okv and okr, expected=f'[str({rid}), *(format(d, {p[5]}) for d in {vals})]',
+                found=u(brow), stmt='row cells')
     # "every value being the true signature distance": cell provenance of the bulk functions the command calls (C05-B1), re-evaluated
     from . import c05
     rep.rule('B1', 'C05-B1 re-evaluated: every matrix cell is the unmodified kernel value, a copy of a cell, or the zero diagonal')
@@ -322,6 +475,20 @@ _MERGED = "\tif rs is not None or use_db:\n\t\tif rs is not None:\n\t\t\tref_sig
 _CALC = "ref_sigfiles = SequenceFile.from_paths(ref_files, 'fasta', 'auto')\nTABSref_pconf = progress_config('click', desc='Calculating reference genome signatures') if len(ref_files) > 1 else None\nTABSref_sigs = calc_file_signatures(kspec, ref_sigfiles, progress=ref_pconf)\n"
 _MODE = "\tif square:\n\t\tdmat = jaccarddist_pairwise(query_sigs, progress=dist_pconf)\n\n\telse:\n\t\tif ref_sigs is None:\n\t\t\t" + _CALC.replace('TABS', '\t\t\t') + "\n\t\tdmat = jaccarddist_matrix(query_sigs, ref_sigs, progress=dist_pconf)\n"
 _HOIST = "\tif ref_sigs is None and not square:\n\t\t" + _CALC.replace('TABS', '\t\t') + "\n"
+_WRITER = ("\twith maybe_open(file, 'w', newline='') as fobj:\n\t\twriter = csv.writer(fobj)\n\t\twriter.writerow([corner or '', *map(str, col_ids)])\n\t\tfor row_id, values in zip_strict(row_ids, dmat):\n"
+           "\t\t\tvalues_str = (format(d, fmt) for d in values)\n\t\t\twriter.writerow([str(row_id), *values_str])\n")
+_GENW = ("\tdef rows():\n\t\tyield [corner or '', *map(str, col_ids)]\n\t\tfor row_id, values in zip_strict(row_ids, dmat):\n\t\t\tyield [str(row_id), *(format(d, fmt) for d in values)]\n\n"
+         "\twith maybe_open(file, 'w', newline='') as fobj:\n\t\tcsv.writer(fobj).writerows(rows())\n")
+_QCALC = ("\t\tquery_sigfiles = SequenceFile.from_paths(query_files, 'fasta', 'auto')\n\t\tquery_pconf = progress_config(prog, desc='Calculating query genome signatures') if len(query_files) > 1 else None\n"
+          "\t\tquery_sigs = calc_file_signatures(kspec, query_sigfiles, progress=query_pconf, max_workers=cores)\n")
+_CALCH = ("def _calc_sigs(kspec, files, prog, desc, **kw):\n\tsigfiles = SequenceFile.from_paths(files, 'fasta', 'auto')\n\tpconf = progress_config(prog, desc=desc) if len(files) > 1 else None\n"
+          "\treturn calc_file_signatures(kspec, sigfiles, progress=pconf, **kw)\n\n\n")
+_REFSEL = _RSDB + "\telif square:\n\t\tref_ids = query_ids\n\t\tref_files = ref_sigs = None\n\telse:\n\t\tref_ids, ref_files = common.get_sequence_files(r, rl, rdir)\n\t\tref_sigs = None\n"
+_REFSEL2 = ("\tif rs is not None:\n\t\tref_sigs = load_signatures(rs)\n\telif use_db:\n\t\tctxobj = ctx.obj\n\t\tref_sigs = ctxobj.get_signatures()\n\telse:\n\t\tref_sigs = None\n\n"
+            "\tif ref_sigs is not None:\n\t\tref_ids = ref_sigs.ids\n\t\tref_files = None\n\telif square:\n\t\tref_ids = query_ids\n\t\tref_files = None\n\telse:\n\t\tref_ids, ref_files = common.get_sequence_files(r, rl, rdir)\n")
+_CM = 'src/gambit/cli/common.py'
+_GETDB = "\tdef get_database(self) -> ReferenceDatabase:\n"
+_GETSIG = "\tdef get_signatures(self):\n\t\tself.require_signatures()\n\t\treturn self.signatures\n\n"
 VARIANTS = [
     V('file options resolve symlinks (seeded C16c)', 'B', 'src/gambit/cli/common.py', "\tkw.setdefault('path_type', Path)\n\treturn click.Path(file_okay=True, dir_okay=False, **kw)\n",
       "\tkw.setdefault('path_type', Path)\n\tkw.setdefault('resolve_path', True)\n\treturn click.Path(file_okay=True, dir_okay=False, **kw)\n", 'G5'),
@@ -355,4 +522,28 @@ VARIANTS = [
     V('conditional expression with the modes swapped', 'B', _D, _MODE, _HOIST + "\tdmat = jaccarddist_matrix(query_sigs, ref_sigs, progress=dist_pconf) if square else jaccarddist_pairwise(query_sigs, progress=dist_pconf)\n", 'G2'),
     V('E: label variables renamed (no rule may depend on what the locals are called)', 'E', _D, "query_ids", "names_a", count=7),
     V('E: signature variables renamed', 'E', _D, "ref_sigs", "sigs_b", count=18),
+    # ---- second refactoring round
+    V('E: rows yielded by a nested generator into one writerows call', 'E', _C, _WRITER, _GENW),
+    V('generator: the header is yielded inside the row loop', 'B', _C, _WRITER, _GENW.replace("\t\tyield [corner or '', *map(str, col_ids)]\n\t\tfor row_id, values in zip_strict(row_ids, dmat):\n",
+      "\t\tfor row_id, values in zip_strict(row_ids, dmat):\n\t\t\tyield [corner or '', *map(str, col_ids)]\n"), 'G4'),
+    V('generator: plain zip drops the count check', 'B', _C, _WRITER, _GENW.replace("zip_strict(row_ids, dmat)", "zip(row_ids, dmat)"), 'G4'),
+    V('generator: cells of the whole matrix instead of the row', 'B', _C, _WRITER, _GENW.replace("for d in values)]", "for d in dmat)]"), 'G4'),
+    V('E: rows as a comprehension handed to writerows, column ids as a comprehension of str()', 'E', _C, _WRITER,
+      "\twith maybe_open(file, 'w', newline='') as fobj:\n\t\twriter = csv.writer(fobj)\n\t\twriter.writerow([corner or '', *[str(c) for c in col_ids]])\n"
+      "\t\twriter.writerows([str(row_id), *(format(d, fmt) for d in values)] for row_id, values in zip_strict(row_ids, dmat))\n"),
+    V('comprehension rows labelled with the column ids', 'B', _C, _WRITER,
+      "\twith maybe_open(file, 'w', newline='') as fobj:\n\t\twriter = csv.writer(fobj)\n\t\twriter.writerow([corner or '', *[str(c) for c in col_ids]])\n"
+      "\t\twriter.writerows([str(row_id), *(format(d, fmt) for d in values)] for row_id, values in zip_strict(col_ids, dmat))\n", 'G4'),
+    V('E: formatted cells written without a temporary', 'E', _C, "\t\t\tvalues_str = (format(d, fmt) for d in values)\n\t\t\twriter.writerow([str(row_id), *values_str])\n", "\t\t\twriter.writerow([str(row_id), *(format(d, fmt) for d in values)])\n"),
+    V('no temporary: cells formatted with a hard-coded format', 'B', _C, "\t\t\tvalues_str = (format(d, fmt) for d in values)\n\t\t\twriter.writerow([str(row_id), *values_str])\n", "\t\t\twriter.writerow([str(row_id), *(format(d, '0.2f') for d in values)])\n", 'G4'),
+    V('E: both "calculate signatures from files" stanzas moved into one helper (takes **kw, so it is summarised, not expanded)', 'E', _D, _QCALC, "\t\tquery_sigs = _calc_sigs(kspec, query_files, prog, 'Calculating query genome signatures', max_workers=cores)\n",
+      also=[(_D, _CALC.replace('TABS', '\t\t\t'), "ref_sigs = _calc_sigs(kspec, ref_files, 'click', 'Calculating reference genome signatures')\n"), (_D, "@cli.command(name='dist', no_args_is_help=True)\n", _CALCH + "@cli.command(name='dist', no_args_is_help=True)\n")]),
+    V('helper call for the query side is given the reference files', 'B', _D, _QCALC, "\t\tquery_sigs = _calc_sigs(kspec, ref_files, prog, 'Calculating query genome signatures', max_workers=cores)\n", 'G3',
+      also=[(_D, _CALC.replace('TABS', '\t\t\t'), "ref_sigs = _calc_sigs(kspec, ref_files, 'click', 'Calculating reference genome signatures')\n"), (_D, "@cli.command(name='dist', no_args_is_help=True)\n", _CALCH + "@cli.command(name='dist', no_args_is_help=True)\n")]),
+    V('helper call for the reference side is given the default parameters', 'B', _D, _QCALC, "\t\tquery_sigs = _calc_sigs(kspec, query_files, prog, 'Calculating query genome signatures', max_workers=cores)\n", 'G3',
+      also=[(_D, _CALC.replace('TABS', '\t\t\t'), "ref_sigs = _calc_sigs(DEFAULT_KMERSPEC, ref_files, 'click', 'Calculating reference genome signatures')\n"), (_D, "@cli.command(name='dist', no_args_is_help=True)\n", _CALCH + "@cli.command(name='dist', no_args_is_help=True)\n")]),
+    V('E: reference source chosen first (file / database method / none), ids and files derived from it afterwards', 'E', _D, _REFSEL, _REFSEL2, also=[(_CM, _GETDB, _GETSIG + _GETDB)]),
+    V('split selection: the second step tests the option, not the loaded signatures (--use-db labelled with file ids)', 'B', _D, _REFSEL, _REFSEL2.replace("\tif ref_sigs is not None:\n\t\tref_ids", "\tif rs is not None:\n\t\tref_ids"), 'G1',
+      also=[(_CM, _GETDB, _GETSIG + _GETDB)]),
+    V('context method returns the cache attribute instead of the signatures property', 'B', _D, _REFSEL, _REFSEL2, 'G1', also=[(_CM, _GETDB, _GETSIG.replace("return self.signatures", "return self._signatures") + _GETDB)]),
 ]
